@@ -4,10 +4,15 @@
 From MC Require Export Encoder.
 Local Open Scope N_scope.
 
-Inductive sink_kind := KSlice | KCursorSlice | KCursorArray | KCursorBox | KVec | KIoVec.
+Inductive sink_kind := KSlice | KCursorSlice | KCursorArray | KCursorBox | KVec | KIoVec
+                     | KIoSlice      (* Writer<&mut [u8]>: std's bounded writer copies what fits, then fails (WriteZero) *)
+                     | KIoTrickle.   (* Writer over an io::Write accepting one byte per write(): write_all loops *)
 
+(* minicbor's own bounded sinks: all-or-nothing per chunk *)
 Definition bounded (k : sink_kind) : bool :=
-  match k with KVec | KIoVec => false | _ => true end.
+  match k with KVec | KIoVec | KIoSlice | KIoTrickle => false | _ => true end.
+(* std's bounded writer behind the io adapter: partial chunk, then error *)
+Definition partial (k : sink_kind) : bool := match k with KIoSlice => true | _ => false end.
 
 Record sink := mksink { s_kind : sink_kind; s_cap : N; s_written : bytes; s_pos : N }.
 
@@ -20,7 +25,19 @@ Definition write_all (s : sink) (c : chunk) : option sink :=
     if len c <=? s_cap s - len (s_written s)
     then Some (mksink (s_kind s) (s_cap s) (s_written s ++ c) (s_pos s + len c))
     else None
+  else if partial (s_kind s) then
+    if len c <=? s_cap s - len (s_written s)
+    then Some (mksink (s_kind s) (s_cap s) (s_written s ++ c) (s_pos s + len c))
+    else None    (* the bytes that fit are written all the same: see write_all_partial *)
   else Some (mksink (s_kind s) (s_cap s) (s_written s ++ c) (s_pos s + len c)).   (* Vec::extend_from_slice *)
+
+(* what a failing write_all leaves behind *)
+Definition write_all_partial (s : sink) (c : chunk) : sink :=
+  if partial (s_kind s) then
+    let room := s_cap s - len (s_written s) in
+    let fit := match take c room with Some (a, _) => a | None => c end in
+    mksink (s_kind s) (s_cap s) (s_written s ++ fit) (s_pos s + len fit)
+  else s.
 
 (* Encoder::put for each chunk until the first write error (the `?` in every encoder method) *)
 Fixpoint run_sink (s : sink) (cs : list chunk) : bool * sink :=
@@ -28,7 +45,7 @@ Fixpoint run_sink (s : sink) (cs : list chunk) : bool * sink :=
   | [] => (true, s)
   | c :: cs' => match write_all s c with
                 | Some s' => run_sink s' cs'
-                | None => (false, s)
+                | None => (false, write_all_partial s c)
                 end
   end.
 
